@@ -121,6 +121,9 @@ def run(ctx):
                 seg = line.split(b"\r")[-1]
                 m = re.match(rb"(.*?): (\d+) ", seg)
                 if m:
+                    if m.group(1).decode() in finals:
+                        res.violations.append(vlib.Violation("a phase has more than one final (newline-terminated) progress line", inp,
+                                                             observed=err1[-600:].decode("latin1")))
                     finals[m.group(1).decode()] = int(m.group(2))
             want = {"Processing blobs": j["unique_blob_count"], "Processing trees": j["unique_tree_count"],
                     "Processing commits": j["unique_commit_count"], "Processing annotated tags": j["unique_tag_count"],
@@ -129,6 +132,29 @@ def run(ctx):
                 want["Matching commits to trees"] = j["unique_commit_count"]
             if finals != want:
                 res.violations.append(vlib.Violation("final progress lines differ from the census", inp, expected=want, observed=finals))
+        # under a fault: the run fails, and still no phase gets a second final line (and nothing is written to stdout)
+        sc = S.gen_graph(rng, "medium")
+        tgs = [i for i, o in enumerate(sc.objects) if o["kind"] == "tag"]
+        roots = SC.build_roots(sc, [], [])
+        walked = [r["obj"] for r in roots if r["walk"]]
+        order = sc.enum_gitlike(walked)
+        for inv, cut in (("cat-file-batch", 10**9), ("cat-file-batch", 200), ("rev-list", 10**9), ("cat-file-batch-check", 10**9), ("rev-list", 41)):
+            fault = {"exit": 3, "invocation": inv, "nth": 0, "after_bytes": cut, "stderr": "fatal: injected"}
+            rc, out, err, _ = eng.run_fake(sc, order, [], [], faults=[fault], extra_args=["--json", "--progress"], timeout=60)
+            res.case(("fault-progress", inv, cut), True)
+            inp = {"fault": fault, "args": ["--json", "--progress"]}
+            if rc == 0 or out:
+                res.violations.append(vlib.Violation("a failing git invocation did not fail the run cleanly", inp))
+            seen = {}
+            for line in err.split(b"\n")[:-1]:
+                seg = line.split(b"\r")[-1]
+                m = re.match(rb"(Processing [a-z ]+|Matching commits to trees): (\d+) ", seg)
+                if m:
+                    seen[m.group(1)] = seen.get(m.group(1), 0) + 1
+            dup = [k.decode() for k, n in seen.items() if n > 1]
+            if dup:
+                res.violations.append(vlib.Violation("a phase's final progress line is written twice when the scan fails", inp,
+                                                     expected="at most one newline-terminated line per phase", observed=err[-600:].decode("latin1")))
     finally:
         eng.close()
     res.assumptions = ["real timing is sampled (ticker periods down to 1 microsecond), not enumerated; the theorem covers all interleavings of the model"]
